@@ -388,6 +388,10 @@ def run(repo: Repo, rep: Report, tier: str) -> None:
     _hc2.report(repo, rep, "R09.6", _hc2.dataclass_fields_contract(repo), "mashumaro.core.meta.code.builder::CodeBuilder.dataclass_fields")
     _hc2.report(repo, rep, "R17.8", _hc2.add_type_modules_contract(repo), "mashumaro.core.meta.code.builder::CodeBuilder.add_type_modules")
     _exception_classes(repo, rep, corpus_mod.explore_all(repo, tier))
+    from ..core.report import Only as _OnlyX
+    from ..core import corpus as _corpusX
+    from . import c03 as _c03x
+    _c03x.run(repo, _OnlyX(rep, {"R03.1"}), tier)
 
 def _fieldless(repo: Repo, rep: Report) -> None:
     fi = repo.func(M_BUILDER, "CodeBuilder._add_unpack_method_lines")
@@ -429,3 +433,6 @@ LEVEL_TEXT += _ADD6
 _ADD19 = ' R05.13: every per-field try has exactly one catch-all handler raising InvalidFieldValue for that field.'
 EXPLANATION += _ADD19
 LEVEL_TEXT += _ADD19
+_ADD22 = ' Borrowed: R03.1 (the unpackers are the documented coercions, which reject non-conforming input).'
+EXPLANATION += _ADD22
+LEVEL_TEXT += _ADD22
